@@ -33,6 +33,8 @@ def make(c):
   if fam == "fixed":
     if c["cls"] in ("bits", "relu"):
       kw = {"use_ste": bool(c["ste"]), "qnoise_factor": undy(c["f"])}
+    if c.get("sr"):
+      kw["use_stochastic_rounding"] = True
     return make_fixed(c, **kw), None
   if fam == "po2":
     mv = 2.0 ** c["mvk"] if c["hasmv"] else None
@@ -84,7 +86,11 @@ def main():
         x = np.array([rnd.uniform(-2, 2) for _ in range(24)] + [0.0, 0.5, -0.5, 1.0, 3.0, -3.0], dtype=np.float32)
         if c["kind"] == "bits_auto":
           x = x.reshape(5, 6)
-      g, r = grads(q, x, ref)
+      tf.keras.backend.set_learning_phase(1 if c.get("sr") else 0)
+      try:
+        g, r = grads(q, x, ref)
+      finally:
+        tf.keras.backend.set_learning_phase(0)
     except Exception as e:
       errors.append({"k": "exc", "c": ci + 1, "exc": repr(e)[:300]})
       continue
